@@ -76,9 +76,13 @@ const char *rtosc_match_path(const char *pattern,
         path_end = &msg; // writing *path_end = msg later will have no effect
     while(1) {
         //Check for special characters
-        if(*pattern == ':' && !*msg)
+        if(*pattern == ':') {
+            //the path part of the pattern ends here, so must the address
+            //(a ':' in the address is not the start of an argument spec)
+            if(*msg)
+                return NULL;
             return *path_end = msg, pattern;
-        else if(*pattern == '{') {
+        } else if(*pattern == '{') {
             pattern = rtosc_match_options(pattern, &msg);
             if(!pattern)
                 return NULL;
